@@ -34,7 +34,7 @@ THREADS_THEOREMS = [
     "C19_independent", "frame", "frame_step", "C19_independent_of_others", "C19_sched_equiv", "sys_step_comm",
     "C19_independent_prefix", "C19_trace", "C19_transfer", "C19_invariant", "C19_invariant_always",
     "C19_invariant_local", "teardown_pc_clears", "add_to_list_dead_noop", "remove_from_list_dead_noop",
-    "drop_cc_ok", "run_drops_ok", "C19_teardown_user_then_pc", "C19_teardown_pc_then_user",
+    "drop_cc_ok", "run_drops_ok", "C19_teardown_user_then_pc", "C19_teardown_pc_then_user", "C19_teardown",
     "drop_cc_after_teardown_ok",
 ]
 ORDERS = ["user_first", "pc_first"]
